@@ -9,7 +9,9 @@
 (* Events                                                                   *)
 (*   cmd c v        start | pause | stop | speed (v units per frame, applied *)
 (*                  with a zero-length tween) | speed_at (v; tween starting  *)
-(*                  at the clock's own time w)                               *)
+(*                  at the clock's own time w) | speed_in (v; zero-length    *)
+(*                  tween that starts w frames of audio time after the       *)
+(*                  command took effect - whether or not the clock ticks)    *)
 (*   sched id w     a sound was scheduled to start at clock time w (units)   *)
 (*   cb n t ticking fired    a callback of n frames ended; t = handle.time() *)
 (*                  in units, fired = <<id, frame>> pairs: sounds first      *)
@@ -23,7 +25,8 @@ PInit(b) ==
     ref |-> 0,               \* reference time (units) at the end of the last callback
     started |-> FALSE,       \* the clock has been started since the last stop
     ticking |-> FALSE, speed |-> 0,
-    pendTick |-> "none", pendReset |-> FALSE, pendSpeed |-> -1,
+    pendTick |-> "none", pendReset |-> FALSE, pendSpeed |-> -1, pendDelay |-> 0,
+    del |-> <<>>,            \* a delayed speed change under way: <<[v, rem]>>, rem = frames of audio time still to pass
     held |-> {0},            \* values the clock has had at chunk boundaries since the last stop (what a read may show)
     lastRead |-> -1,
     sched |-> <<>>,          \* scheduled sounds: [id, w, fired]
@@ -37,24 +40,31 @@ Chunks(n, b) == IF n = 0 THEN <<>> ELSE IF n <= b THEN <<n>> ELSE <<b>> \o Chunk
 
 \* commands take effect at the start of the callback: speed, then ticking, then reset
 AfterCmds(m) ==
-  LET sp == IF m.pendSpeed # -1 THEN m.pendSpeed ELSE m.speed
-      tk == IF m.pendTick = "on" THEN TRUE ELSE IF m.pendTick = "off" THEN FALSE ELSE m.ticking
+  LET tk == IF m.pendTick = "on" THEN TRUE ELSE IF m.pendTick = "off" THEN FALSE ELSE m.ticking
       rf == IF m.pendReset THEN 0 ELSE m.ref
       st == IF m.pendReset THEN FALSE ELSE m.started
-  IN [m EXCEPT !.speed = sp, !.ticking = tk, !.ref = rf, !.started = st,
-               !.pendSpeed = -1, !.pendTick = "none", !.pendReset = FALSE]
+      now == m.pendSpeed # -1 /\ m.pendDelay = 0
+      \* (a new speed command replaces a delayed one that has not begun)
+      dl == IF m.pendSpeed = -1 THEN m.del ELSE IF m.pendDelay = 0 THEN <<>> ELSE <<[v |-> m.pendSpeed, rem |-> m.pendDelay]>>
+  IN [m EXCEPT !.speed = IF now THEN m.pendSpeed ELSE m.speed, !.ticking = tk, !.ref = rf, !.started = st, !.del = dl,
+               !.pendSpeed = -1, !.pendDelay = 0, !.pendTick = "none", !.pendReset = FALSE]
 
 \* walk through the chunks: returns the sequence of records [start, end, t0, t1, ticking] per chunk
 \* (an own-time speed change takes effect from the chunk after the one in which the clock reaches w at the latest)
-RECURSIVE Walk(_, _, _, _, _, _)
-Walk(chs, f, t, sp, tk, own) ==
+\* (a delayed change takes effect from the first chunk that begins once its delay has passed, ticking or not)
+RECURSIVE Walk(_, _, _, _, _, _, _)
+Walk(chs, f, t, sp0, tk, own, del) ==
   IF chs = <<>> THEN <<>>
   ELSE LET len == Head(chs)
+           sp == IF del # <<>> /\ del[1].rem = 0 THEN del[1].v ELSE sp0
+           del1 == IF del = <<>> \/ del[1].rem = 0 THEN <<>>
+                   ELSE <<[del[1] EXCEPT !.rem = IF @ > len THEN @ - len ELSE 0]>>
            t1 == IF tk THEN t + sp * len ELSE t
            due == {j \in 1..Len(own) : tk /\ own[j].w <= t1}
            sp1 == IF due = {} THEN sp ELSE own[CHOOSE j \in due : \A k \in due : k <= j].v
            own1 == SelectSeq(own, LAMBDA o : ~(tk /\ o.w <= t1))
-       IN <<[f0 |-> f, len |-> len, t0 |-> t, t1 |-> t1, tk |-> tk, sp |-> sp]>> \o Walk(Tail(chs), f + len, t1, sp1, tk, own1)
+       IN <<[f0 |-> f, len |-> len, t0 |-> t, t1 |-> t1, tk |-> tk, sp |-> sp, spNext |-> sp1, delNext |-> del1]>>
+          \o Walk(Tail(chs), f + len, t1, sp1, tk, own1, del1)
 
 Boundaries(w) == {w[j].t0 : j \in 1..Len(w)} \cup {w[j].t1 : j \in 1..Len(w)}
 
@@ -71,7 +81,7 @@ FireWindow(w, x) ==
 Check(m, e) ==
   CASE e.a = "cb" ->
          LET m1 == AfterCmds(m)
-             w == Walk(Chunks(e.n, m.b), 0, m1.ref, m1.speed, m1.ticking, m.own)
+             w == Walk(Chunks(e.n, m.b), 0, m1.ref, m1.speed, m1.ticking, m.own, m1.del)
              tEnd == IF w = <<>> THEN m1.ref ELSE w[Len(w)].t1
          IN
          IF e.panicked THEN "no_panic"
@@ -97,17 +107,17 @@ Upd(m, e) ==
          (CASE e.c = "start" -> [m EXCEPT !.pendTick = "on"]
             [] e.c = "pause" -> [m EXCEPT !.pendTick = "off"]
             [] e.c = "stop"  -> [m EXCEPT !.pendTick = "off", !.pendReset = TRUE, !.held = {0}, !.lastRead = -1]
-            [] e.c = "speed" -> [m EXCEPT !.pendSpeed = e.v]
+            [] e.c = "speed" -> [m EXCEPT !.pendSpeed = e.v, !.pendDelay = 0]
+            [] e.c = "speed_in" -> [m EXCEPT !.pendSpeed = e.v, !.pendDelay = e.w]
             [] e.c = "speed_at" -> [m EXCEPT !.own = Append(@, [v |-> e.v, w |-> e.w]), !.ownUsed = TRUE]
             [] OTHER -> m)
     [] e.a = "sched" -> [m EXCEPT !.sched = Append(@, [id |-> e.id, w |-> e.w, fired |-> FALSE])]
     [] e.a = "cb" ->
          LET m1 == AfterCmds(m)
-             w == Walk(Chunks(e.n, m.b), 0, m1.ref, m1.speed, m1.ticking, m.own)
+             w == Walk(Chunks(e.n, m.b), 0, m1.ref, m1.speed, m1.ticking, m.own, m1.del)
              last == w[Len(w)]
-             due == {j \in 1..Len(m.own) : \E k \in 1..Len(w) : w[k].tk /\ m.own[j].w <= w[k].t1}
          IN [m1 EXCEPT !.ref = last.t1,
-                       !.speed = IF due = {} THEN m1.speed ELSE m.own[CHOOSE j \in due : \A k \in due : k <= j].v,
+                       !.speed = last.spNext, !.del = last.delNext,
                        !.own = SelectSeq(m.own, LAMBDA o : ~(\E k \in 1..Len(w) : w[k].tk /\ o.w <= w[k].t1)),
                        !.held = (IF m.pendReset THEN {0} ELSE m.held) \cup Boundaries(w),
                        !.sched = [k \in 1..Len(m.sched) |->
